@@ -34,6 +34,7 @@ class Sess:
     def __init__(self, setup, chooser):
         self.setup = setup
         self.srv = RefServer({"sasl": setup["sasl"], "version": setup["version"], "password": "secret", "maxscripts": 4, "maxsize": 400,
+                              "starttls": bool(setup.get("starttls")),
                               "scripts": [(b"main", b"keep;\r\n")] if setup.get("preload") else [], "active": b"main" if setup.get("preload") else None},
                              chooser)
         self.s = Session(self.srv, schedule=list(setup["schedule"]), cap=setup["cap"])
@@ -43,7 +44,7 @@ class Sess:
         self.steps = []
         self.had_no = False
         self.had_literal = False
-        r = self.s.call("connect", "user", "secret")
+        r = self.s.call("connect", "user", "secret", starttls=bool(setup.get("starttls")))
         if r != ("ret", True):
             self.fails.append(("connect-fails|mech=%s" % setup["sasl"][0], {"result": r, "violations": self.srv.violations}))
 
@@ -185,11 +186,12 @@ def worker(arg):
             self.aborted = False
 
         @initialize(data=st.data(), sasl=st.sampled_from(MECHS), version=st.sampled_from([True, True, False]),
-                    schedule=st.lists(st.integers(1, 9), max_size=30), cap=st.sampled_from([None, None, 1, 2, 5, 16]), preload=st.booleans())
-        def start(self, data, sasl, version, schedule, cap, preload):
+                    schedule=st.lists(st.integers(1, 9), max_size=30), cap=st.sampled_from([None, None, 1, 2, 5, 16]), preload=st.booleans(),
+                    starttls=st.sampled_from([False, False, True]))
+        def start(self, data, sasl, version, schedule, cap, preload, starttls):
             self.chooser = DrawChooser(data)
             self.aborted = True  # until the session is set up completely
-            self.sess = Sess({"sasl": sasl, "version": version, "schedule": schedule, "cap": cap, "preload": preload}, self.chooser)
+            self.sess = Sess({"sasl": sasl, "version": version, "schedule": schedule, "cap": cap, "preload": preload, "starttls": starttls}, self.chooser)
             self.aborted = False
 
         def _do(self, data, op, args):
@@ -261,7 +263,7 @@ def worker(arg):
             sess.close()
             nt = len(sess.steps) >= 5 and sess.had_no and sess.had_literal
             case = {"setup": sess.setup, "steps": sess.steps, "choices": self.chooser.record}
-            classes = ["mech:" + sess.setup["sasl"][0], "version:%s" % sess.setup["version"], "cap:%s" % sess.setup["cap"]]
+            classes = ["mech:" + sess.setup["sasl"][0], "version:%s" % sess.setup["version"], "cap:%s" % sess.setup["cap"], "starttls:%s" % bool(sess.setup.get("starttls"))]
             if sess.had_no:
                 classes.append("had-NO")
             classes += ["op:" + o for o in {x["op"] for x in sess.steps}]
@@ -296,7 +298,7 @@ def shrink(case, bucket, budget):
 def main(tier, seed, t0):
     quick = tier == "quick"
     col = core.run_shards(worker, [(seed * 1000 + 1900 + k, 120 if quick else 2500, 40) for k in range(16)])
-    need = ["mech:PLAIN", "mech:LOGIN", "mech:OAUTHBEARER", "mech:DIGEST-MD5", "version:True", "version:False", "had-NO",
+    need = ["starttls:True", "starttls:False", "mech:PLAIN", "mech:LOGIN", "mech:OAUTHBEARER", "mech:DIGEST-MD5", "version:True", "version:False", "had-NO",
             "op:putscript", "op:getscript", "op:listscripts", "op:renamescript", "op:deletescript", "op:setactive", "op:havespace", "op:checkscript"]
     missing = [c for c in need if not col.classes.get(c)]
     if missing:
